@@ -12,6 +12,9 @@
  *   vp_enter(tid,2|3) writer section begins after upgrade_to_writer() returned false|true
  *   vp_leave(tid,3) writer becomes reader (reported just before the real downgrade, see wrapper) */
 #include "w.h"
+#if LOCK == 5
+#define VP_OWN_YIELD      /* h_rtm_stubs.h: a system call inside a transaction aborts it */
+#endif
 #include "vp.h"
 #ifndef NT
 #define NT 2
@@ -59,12 +62,20 @@ u8* vp_i2p(u64 x) {
 #endif
 }
 #elif LOCK == 5
+#ifdef DATA      /* roles 0 reader / 1 writer / 4 try reader / 5 try writer over the data word pair vp_A, vp_B */
+#define THR(s) vp_thr_rtmrw_d_##s
+#define vp_data vp_A
+#else
 #define THR(s) vp_thr_rtmrw_##s
+#endif
 struct S_class_tbb__detail__d1__rtm_rw_mutex M;
 #define WORD() vp_rtmrw_word(&M)
 #define INIT() vp_rtmrw_init(&M, SPEC)
 #define START(s, t, r) THR(s##_start)(&M, t, r)
 #include "h_rtm_stubs.h"
+#endif
+#ifndef VP_TXCHK
+#define VP_TXCHK(t)
 #endif
 static const int role[3] = { R0, R1, R2 };
 #define IS_TRY(r) ((r) == 4 || (r) == 5)
@@ -105,7 +116,7 @@ void vp_try_result(u32 tid, u32 ok) { tried[tid] = 1; try_ok[tid] = ok; }
 void vp_wait_reader(u32 tid) { for (int o = 0; o < NT; o++) if (o != (int)tid && role[o] == 0 && !entered[o]) { VP_BLOCK(); return; } }
 #ifdef DATA
 void vp_data_read(u32 tid, u64 a, u64 b) {
-  VP_ASSERT(a == b, "protected word changed while a read lock was held");
+  VP_ASSERT(a == b, "protected data inconsistent under a read lock (word changed / half of a writer's update visible)");
   VP_ASSERT(a == wepoch, "reader does not see the update of the last writer section");
 }
 #endif
@@ -132,12 +143,16 @@ int main(void) {
   START(c, 2, R2);
 #endif
   for (int r = 0; r < ROUNDS; r++) {
-    VP_RUNT(THR(a), 0) OBS(0) VP_RUNT(THR(b), 1) OBS(1)
+    VP_RUNT(THR(a), 0) VP_TXCHK(0) OBS(0) VP_RUNT(THR(b), 1) VP_TXCHK(1) OBS(1)
 #if NT == 3
-    VP_RUNT(THR(c), 2) OBS(2)
+    VP_RUNT(THR(c), 2) VP_TXCHK(2) OBS(2)
 #endif
   }
-#if NT == 3
+#if NT == 3 && LOCK == 5
+  VP_QUIESCE3T(THR(a), THR(b), THR(c))
+#elif LOCK == 5
+  VP_QUIESCE2T(THR(a), THR(b))
+#elif NT == 3
   VP_QUIESCE3S(THR(a), THR(b), THR(c))
 #else
   VP_QUIESCE2S(THR(a), THR(b))
